@@ -267,6 +267,28 @@ theorem header_hash_eq (H : Bytes → Bytes) (h : Header) (s : Bytes) (hs : h.se
     h.hash H = some (H s).reverse := by
   simp [Header.hash, hs]
 
+/-- EVERY 80-byte header (the version field is any 4-byte value, bit 31 included: the model keeps it as a natural
+    number below 2^32): parsing and serialising gives the same 80 bytes back, the hash is the reversed hash256 of those
+    bytes — the consensus header hash — and check_pow is evaluated on that hash -/
+theorem header_raw_roundtrip (H : Bytes → Bytes) (raw : Bytes) (h80 : raw.length = 80) :
+    (Header.parse raw).1.serialize = some raw ∧ (Header.parse raw).1.hash H = some (H raw).reverse ∧
+    (Header.parse raw).1.version < 2 ^ 32 := by
+  have hs := header_parse_serialize80 raw (by omega)
+  rw [List.take_of_length_le (by omega)] at hs
+  refine ⟨hs, by simp [Header.hash, hs], ?_⟩
+  have := leToNat_lt (raw.take 4)
+  simp only [List.length_take] at this
+  have h4 : min 4 raw.length = 4 := by omega
+  rw [h4] at this
+  simpa [Header.parse] using this
+
+theorem header_raw_check_pow (H : Bytes → Bytes) (raw : Bytes) (h80 : raw.length = 80)
+    (hexp : 3 ≤ leToNat (Header.parse raw).1.bits / 2 ^ 24) :
+    checkPow H (Header.parse raw).1 = some (decide (leToNat (H raw) <
+      (leToNat (Header.parse raw).1.bits % 2 ^ 24) * 256 ^ (leToNat (Header.parse raw).1.bits / 2 ^ 24 - 3))) := by
+  have hb : (Header.parse raw).1.bits.length = 4 := by simp [Header.parse]; omega
+  exact checkPow_eq H _ raw (header_raw_roundtrip H raw h80).1 hb hexp
+
 /-- bits_to_target = SetCompact for 4-byte bits with exponent ≥ 3, clear sign bit, no overflow -/
 theorem bits_to_target_eq_SetCompact (bits : Bytes) (h4 : bits.length = 4)
     (hexp : 3 ≤ leToNat bits / 2 ^ 24) (hsign : (leToNat bits / 2 ^ 23) % 2 = 0)
